@@ -75,17 +75,43 @@ func OpInRange(x Value, orgOp tok.Token, org Value, endOp tok.Token, end Value) 
 	return True
 }
 
+// addInt returns x + y and whether the result is exact (did not overflow)
+func addInt(x, y int) (int, bool) {
+	z := x + y
+	return z, (z > x) == (y > 0)
+}
+
+// subInt returns x - y and whether the result is exact (did not overflow)
+func subInt(x, y int) (int, bool) {
+	z := x - y
+	return z, (z < x) == (y > 0)
+}
+
+// mulInt returns x * y and whether the result is exact (did not overflow)
+func mulInt(x, y int) (int, bool) {
+	if x == 0 {
+		return 0, true
+	}
+	z := x * y
+	return z, z/x == y && !(x == -1 && y == math.MinInt)
+}
+
+// The integer fast paths below fall back to Dnum arithmetic
+// when the int result would overflow (instead of wrapping around).
+
 func OpAdd(x Value, y Value) Value {
 	if xi, xok := SuIntToInt(x); xok {
 		if yi, yok := SuIntToInt(y); yok {
-			return IntVal(xi + yi)
+			if z, ok := addInt(xi, yi); ok {
+				return IntVal(z)
+			}
 		}
 	}
 	return SuDnum{Dnum: dnum.Add(ToDnum(x), ToDnum(y))}
 }
 
 func OpAdd1(x Value) Value {
-	if n, ok := SuIntToInt(x); ok {
+	if n, ok := SuIntToInt(x); ok && n != math.MaxInt {
 		return IntVal(n + 1)
 	}
 	return SuDnum{Dnum: dnum.Add(ToDnum(x), dnum.One)}
@@ -94,7 +120,9 @@ func OpAdd1(x Value) Value {
 func OpSub(x Value, y Value) Value {
 	if xi, xok := SuIntToInt(x); xok {
 		if yi, yok := SuIntToInt(y); yok {
-			return IntVal(xi - yi)
+			if z, ok := subInt(xi, yi); ok {
+				return IntVal(z)
+			}
 		}
 	}
 	return SuDnum{Dnum: dnum.Sub(ToDnum(x), ToDnum(y))}
@@ -103,7 +131,9 @@ func OpSub(x Value, y Value) Value {
 func OpMul(x Value, y Value) Value {
 	if xi, xok := SuIntToInt(x); xok {
 		if yi, yok := SuIntToInt(y); yok {
-			return IntVal(xi * yi)
+			if z, ok := mulInt(xi, yi); ok {
+				return IntVal(z)
+			}
 		}
 	}
 	return SuDnum{Dnum: dnum.Mul(ToDnum(x), ToDnum(y))}
@@ -112,7 +142,7 @@ func OpMul(x Value, y Value) Value {
 func OpDiv(x Value, y Value) Value {
 	if yi, yok := SuIntToInt(y); yok && yi != 0 {
 		if xi, xok := SuIntToInt(x); xok {
-			if xi%yi == 0 {
+			if xi%yi == 0 && !(xi == math.MinInt && yi == -1) {
 				return IntVal(xi / yi)
 			}
 		}
@@ -182,7 +212,7 @@ func OpUnaryPlus(x Value) Value {
 }
 
 func OpUnaryMinus(x Value) Value {
-	if xi, ok := SuIntToInt(x); ok {
+	if xi, ok := SuIntToInt(x); ok && xi != math.MinInt {
 		return IntVal(-xi)
 	}
 	if x == EmptyStr || x == False {
